@@ -324,10 +324,10 @@ def oracle_singles(case, rec):
     mi = 'MI' in case['heuristic']
     rec.cls('heuristic:MI' if mi else 'heuristic:other', 'order=%d' % case['order'])
     if label_scores:
+        # the label scored against itself is a row "against the label" like any other (every ranking run writes it: the pair space
+        # is built with replacement); it takes part in the listing and in the normalisation
         rec.cls('label-label-row')
-        if label_full in got_names:
-            groups[label_full] = label_scores
-            rec.cls('label-listed')
+        groups[label_full] = label_scores
     if any(len(v) > 1 for v in groups.values()):
         rec.cls('duplicated-orientation')
     if any(e['ann'] is None for e in case['entities']) and any(e['ann'] is not None for e in case['entities']):
